@@ -347,7 +347,7 @@ pub fn gen_table_plan(rng: &mut Prng, property: &str, thorough: bool) -> TablePl
         let k = rng.range(1, 3);
         for _ in 0..k {
             if rng.chance(1, 5) {
-                variants.push(Variant::Style(rng.range(1, 3) as u8));
+                variants.push(Variant::Style(rng.range(1, 7) as u8));
             } else if rng.coin() {
                 variants.push(Variant::Channel(gen_channel(rng)));
             } else {
@@ -468,6 +468,23 @@ pub fn run_rsbdd(dir: &Path, inv: &Invocation) -> Spawned {
         args.push(if inv.style & 1 == 1 { "o.txt".to_string() } else { p.to_string_lossy().to_string() });
     }
     args.extend(inv.args.iter().cloned());
+    if inv.style & 4 == 4 {
+        // the same arguments in reverse order (an option keeps its value)
+        let takes_value = ["-o", "-f", "-b", "-d", "-p", "-c", "-e"];
+        let mut units: Vec<Vec<String>> = Vec::new();
+        let mut i = 0;
+        while i < args.len() {
+            if takes_value.contains(&args[i].as_str()) && i + 1 < args.len() {
+                units.push(vec![args[i].clone(), args[i + 1].clone()]);
+                i += 2;
+            } else {
+                units.push(vec![args[i].clone()]);
+                i += 1;
+            }
+        }
+        units.reverse();
+        args = units.into_iter().flatten().collect();
+    }
     if inv.style & 2 == 2 && args.iter().all(|a| !a.contains('\n') && !a.contains('\r') && !a.is_empty() && a.trim() == a) {
         // argfile: one argument per line; only when every argument survives that encoding verbatim
         std::fs::write(dir.join("args.txt"), args.join("\n")).expect("tmpfs write");
@@ -861,7 +878,7 @@ pub fn execute_table(p: &TablePlan) -> RunOutcome {
                         let (ch, b, oracle, what, style) = match var {
                             Variant::Channel(c) => (c.clone(), p.b, "T7", format!("channel {}", c.name()), 0u8),
                             Variant::Repeat(n) => (p.channel.clone(), Some(*n), "T8", format!("-b {n}"), 0u8),
-                            Variant::Style(st) => (p.channel.clone(), p.b, "T7", format!("argument style {st} (1 = relative paths, 2 = @argfile)"), *st),
+                            Variant::Style(st) => (p.channel.clone(), p.b, "T7", format!("argument style {st} (bit 0 = relative paths, bit 1 = @argfile, bit 2 = reversed argument order)"), *st),
                         };
                         let r = run_rsbdd(
                             &dir,
